@@ -667,6 +667,14 @@ func (m *metadataAPI) ReportLeader(ctx context.Context, req *proto.ReportLeaderO
 				leader, epoch, req.Leader, req.LeaderEpoch))
 	}
 
+	// Only the in-sync followers are witnesses: the quorum is a majority of
+	// them.
+	if req.Replica == leader || !partition.inISR(req.Replica) {
+		return status.New(
+			codes.FailedPrecondition,
+			fmt.Sprintf("Replica %s is not an in-sync follower of partition %s", req.Replica, partition))
+	}
+
 	m.mu.Lock()
 	failover := m.partitionFailovers[partition]
 	if failover == nil {
